@@ -879,7 +879,7 @@ def default_path_histories(ctx, root, ndirs):
     stats = {"calls": 0, "histories": 0}
     for k in range(ndirs):
         per_proc, grouped = bool(k & 1), bool(k & 2)
-        desc = etgen.random_desc(rng, "c11hist%d" % k, per_proc=per_proc, grouped=grouped, nlevels=1,
+        desc = etgen.random_desc(rng, "c11hist%d" % k, per_proc=per_proc, grouped=grouped, nlevels=1 + k % 2,
                                  nrest=rng.randint(1, 2), nmax=ctx.budget(5, 7), kmax=(2, 2, 2),
                                  nvars=rng.randint(2, 3), nits=4)
         sim = etgen.Sim(root, desc)
@@ -898,6 +898,11 @@ def default_path_histories(ctx, root, ndirs):
             hist.append({"it": rng.sample(pool, rng.randint(1, len(pool))), "vars": list(desc["requests"])})
         if rng.random() < 0.3:
             hist = hist[::2] + hist[1::2]
+        nlev = len(desc["levels"])
+        if nlev > 1:
+            # the levels share the per-iteration cache files: the same requests at the finest level first, then at
+            # level 0, then the finest again (each level must get its own data back)
+            hist = [dict(h, rl=nlev - 1) for h in hist[:2]] + [dict(h, rl=0) for h in hist] + [dict(hist[-1], rl=nlev - 1)]
         stats["histories"] += 1
         if k == 0:
             ctx.sample({"default_path_history": hist})
@@ -906,14 +911,14 @@ def default_path_histories(ctx, root, ndirs):
             param = sim.param()
             done = []
             for h in hist:
-                call = {"it": list(h["it"]), "vars": list(h["vars"]), "rl": rl, "restart": -1, "skip_last": False}
+                call = {"it": list(h["it"]), "vars": list(h["vars"]), "rl": h.get("rl", rl), "restart": -1, "skip_last": False}
                 try:
                     data = do_read(param, call, split_per_it=True)
                     diff = check_against_truth(sim, call, data)
                 except Exception as ex:  # noqa
                     diff = "raised %s: %s" % (type(ex).__name__, str(ex)[:200])
                 stats["calls"] += 1
-                done.append({"it": call["it"], "vars": call["vars"]})
+                done.append({"it": call["it"], "vars": call["vars"], "rl": call["rl"]})
                 if diff:
                     fp = fingerprint(sim, call, diff)
                     fp["site"] = "read_data/default_path_history"
